@@ -26,7 +26,7 @@ from harness import core, exprs
 from harness.core import F
 from harness.exprs import C, T, V, add, mul
 
-PROPS_MODULES = ["Pdq.Props.C10"]
+PROPS_MODULES = ["Pdq.Props.C10", "Pdq.Props.C11"]  # C11: models of jet_lift / residual_from_ode used by the residual route
 LEVEL = "proof"
 
 TOL = 1e-11  # relative to the majorant scale (sum of |terms| of the exact recursion); clean tree: <= ~2e-14
@@ -126,6 +126,15 @@ def run_routine(name, ode, inits, t, num):
     return np.stack([from_tree(x) for x in out])
 
 
+def try_routine(ctx, name, ode, inits, t, num, case):
+    """a crash of a routine on a valid problem is a violation, not a harness error"""
+    try:
+        return run_routine(name, ode, inits, t, num)
+    except Exception as e:  # noqa: BLE001
+        ctx.violation(f"{name}:raised", f"{name} crashed on a valid problem: {type(e).__name__}: {str(e)[:300]}", case)
+        return None
+
+
 def run_residual_route(ode, inits, t, num):
     """jetexpand_residual on the lifted ODE residual u^(K) - f = 0 (constraints determine the coefficients)."""
     from probdiffeq import probdiffeq
@@ -216,8 +225,12 @@ def probe(ctx):
         ("via_jvp", 4, 5, "jetexpand_ode_via_jvp(num=4)"),
         ("doubling", 2, 7, "jetexpand_ode_doubling_unroll(num_doublings=2)"),
     ]:
-        out = run_routine(name, ode, u0, 0.5, num)[:, 0]
         full = {"via_jvp": "jetexpand_ode_via_jvp", "doubling": "jetexpand_ode_doubling_unroll"}[name]
+        out = try_routine(ctx, name, ode, u0, 0.5, num, {"corpus": "D4", "routine": full})
+        if out is None:
+            modes[name] = "exact"
+            continue
+        out = out[:, 0]
         case = {
             "routine": full,
             "vector_field": "f(u, t) = t*u + t**2",
@@ -310,12 +323,15 @@ def one_case(ctx, modes, K, d, es, inits, t, kind, num, time_dep, tag="gen"):
     scale = majorant_scale(ctx, K, d, K + num, t, inits, es)
 
     for name in ("padded_scan", "unroll"):
-        out = run_routine(name, ode, inits_tree, t, num)
-        compare(ctx, f"{name}.coeffs", f"{name}:coeffs", out, exact, scale, dict(desc, routine=name))
+        out = try_routine(ctx, name, ode, inits_tree, t, num, dict(desc, routine=name))
+        if out is not None:
+            compare(ctx, f"{name}.coeffs", f"{name}:coeffs", out, exact, scale, dict(desc, routine=name))
 
     # recursive JVP (exponential cost: bounded num)
-    if num <= ctx.n(6, 9):
-        out = run_routine("via_jvp", ode, inits_tree, t, num)
+    out = try_routine(ctx, "via_jvp", ode, inits_tree, t, num, dict(desc, routine="via_jvp")) if num <= ctx.n(6, 9) else None
+    if num > ctx.n(6, 9):
+        ctx.skip("via_jvp: num too large for the exponential-cost routine")
+    elif out is not None:
         if modes["via_jvp"] == "frozen":
             small = num <= (4 if d >= 2 else 5)
             ref = model(ctx, "jet_jvp" if small else "jet_jvp_frozen", K, d, num, t, inits, es)
@@ -332,14 +348,14 @@ def one_case(ctx, modes, K, d, es, inits, t, kind, num, time_dep, tag="gen"):
                 if not np.array_equal(aug, exact):
                     raise core.HarnessError(f"driver: jet_jvp_aug != jet_scan on {desc}")
             compare(ctx, "via_jvp.coeffs", "via_jvp:coeffs", out, exact, scale, dict(desc, routine="via_jvp"))
-    else:
-        ctx.skip("via_jvp: num too large for the exponential-cost routine")
 
     # Newton doubling: first-order problems only
     if K == 1:
         nd = {0: 0, 1: 1, 2: 1, 3: 2, 4: 2, 5: 2, 6: 2}.get(num, 3 if not ctx.quick else 2)
         n_out = 2 ** (nd + 1) - 1
-        out = run_routine("doubling", ode, inits_tree, t, nd)
+        out = try_routine(ctx, "doubling", ode, inits_tree, t, nd, dict(desc, routine="doubling", num_doublings=nd))
+        if out is None:
+            return
         op = "jet_doubling" if modes["doubling"] == "frozen" else "jet_doubling_aug"
         ref = model(ctx, op, K, d, nd, t, inits, es)
         truth = model(ctx, "jet_scan", K, d, n_out - 1, t, inits, es)
@@ -373,9 +389,15 @@ def residual_case(ctx, K, d, es, inits, t, num, time_dep):
     ctx.case(desc)
     ctx.count("residual_route")
     ode = make_ode(es, K, d, "flat")
-    out, info = run_residual_route(ode, [jnp.asarray(inits[k]) for k in range(K)], t, num)
+    try:
+        out, info = run_residual_route(ode, [jnp.asarray(inits[k]) for k in range(K)], t, num)
+    except Exception as e:  # noqa: BLE001
+        ctx.violation("residual:raised", f"jetexpand_residual crashed on a valid problem: {type(e).__name__}: {str(e)[:300]}", desc)
+        return
     exact = model(ctx, "jet_scan", K, d, num, t, inits, es)
-    scale = majorant_scale(ctx, K, d, K + num, t, inits, es)
+    # the Gauss-Newton / lstsq solve couples all unknowns: structural zeros are not preserved, so the scale is
+    # the largest majorant entry (norm-wise comparison), not the entry-wise majorant
+    scale = np.full((K + num, d), float(np.max(majorant_scale(ctx, K, d, K + num, t, inits, es))))
     if int(info.get("iters", 0)) >= 60 if isinstance(info, dict) and "iters" in info else False:
         ctx.skip("residual route: Gauss-Newton hit maxiter (outside the 'constraints determine them' regime)")
         return
@@ -411,9 +433,9 @@ def run(ctx):
     for K, d, es, inits, t, kind, num, td in corpus_cases:
         one_case(ctx, modes, K, d, es, inits, t, kind, num, td, tag="corpus")
 
-    n_cases = ctx.n(18, 220)
+    n_cases = ctx.n(40, 520)
     t_start = time.time()
-    budget = 55 if ctx.quick else 700
+    budget = 50 if ctx.quick else 660
     done = 0
     for i in range(n_cases):
         if time.time() - t_start > budget:
@@ -424,7 +446,7 @@ def run(ctx):
         done += 1
 
     # residual route (Gauss-Newton on a diffuse prior)
-    n_res = ctx.n(3, 30)
+    n_res = ctx.n(4, 30)
     for i in range(n_res):
         if time.time() - t_start > budget + (15 if ctx.quick else 120):
             break
